@@ -22,33 +22,10 @@ def _env(X):
 
 def decoded_operands(X, mnemonic, prefix):
     """self.arg after x86_mn.special_opcodes for a string mnemonic (name as in the table: movsb, cmpsd, ...) decoded with `prefix`."""
-    arch, afs = X.arch, X.afs
-    sp = arch.method('x86_mn', 'special_opcodes')
-    blocks = [n for n in walk_no_nested(sp) if isinstance(n, ast.If) and 'self.m.name' in u(n.test) and 'startswith' in u(n.test)
-              and any(isinstance(x, ast.Assign) and u(x.targets[0]) == 'self.arg' for x in ast.walk(n))]
-    if len(blocks) < 5:
-        raise AnalysisError('special_opcodes: expected the 5 string-instruction blocks that assign self.arg, found %d' % len(blocks))
-    me, m = Obj('self'), Obj('m')
-    m.name = mnemonic
-    me.m, me.prefix, me.arg, me.opmode = m, list(prefix), [], afs.u32
-    env = _env(X)
-    env.update({'self': me, 'u08': afs.u08, 'u16': afs.u16, 'u32': afs.u32})
-    xm = Obj('x86mndb')
-    for k in ('lodsw_m', 'stosw_m', 'movsw_m', 'cmpsw_m', 'scasw_m'):
-        setattr(xm, k, m)
-    env['x86mndb'] = xm
-    ev = Evaluator(env)
-    hit = False
-    for b in blocks:
-        try:
-            if ev.ev(b.test):
-                ev.exec_stmts(b.body, ev.env)
-                hit = True
-        except NotConst as e:
-            raise AnalysisError('special_opcodes block `%s` is outside the statically evaluable subset: %s' % (u(b.test)[:50], e))
-    if not hit:
-        raise AnalysisError('no special_opcodes block builds the operands of %s' % mnemonic)
-    return me.arg
+    name_, args_, _ = special(X, mnemonic, X.afs.u32, prefix, None, [])
+    if not args_:
+        raise AnalysisError('special_opcodes builds no operands for %s' % mnemonic)
+    return args_
 
 
 def renamed_copies(X):
@@ -139,7 +116,8 @@ def special(X, mnemonic, opmode, prefix=(), modifs=None, args=()):
     operands `args`: the whole method body is evaluated."""
     arch, afs = X.arch, X.afs
     sp = arch.method('x86_mn', 'special_opcodes')
-    me, m = Obj('self'), Obj('m')
+    from .consteval import class_obj
+    me, m = class_obj(arch, 'x86_mn', 'self'), Obj('m')
     m.name = mnemonic
     md = dict((X.env[k], None) for k in ('w8', 'se', 'sw', 'ww', 'sg', 'dr', 'cr', 'ft', 'w64', 'sd', 'wd', 'bkf', 'spf', 'dtf', 'mmx') if k in X.env)
     md.update(modifs or {})
@@ -175,8 +153,12 @@ def rendered_operands(X, mnemonic, args):
     seen = 0
     for st in strm.body:
         try:
-            if isinstance(st, ast.Assign) and isinstance(st.targets[0], ast.Name) and st.targets[0].id == 'default_ds':
-                ev.env['default_ds'] = ev.ev(st.value)
+            if isinstance(st, ast.Assign) and len(st.targets) == 1 and isinstance(st.targets[0], ast.Name) and st.targets[0].id != 'args':
+                # a local the later statements may read (default_ds, an alias of self.m.name ...): bound when it is evaluable here
+                try:
+                    ev.env[st.targets[0].id] = ev.ev(st.value)
+                except NotConst:
+                    pass
             if isinstance(st, ast.If) and any(isinstance(x, ast.Assign) and u(x.targets[0]) == 'args[0:2]' for x in st.body):
                 seen += 1
                 ev.exec_stmt(st, ev.env)
